@@ -220,7 +220,7 @@ func runC02(c *config) {
 	for i, in := range rtInputs(c, "c02", 60*c.scale) {
 		c02One(c, in, i < 1)
 	}
-	c02Order(c) // names that form adversarial order families, eight fresh parses each (c02order.go)
+	c02Order(c)   // names that form adversarial order families, eight fresh parses each (c02order.go)
 	c02Headers(c) // optional parts of declaration / definition headers in every combination (c02hdr.go)
 	_ = o
 }
